@@ -415,7 +415,9 @@ func c15Extra(r *Run) error {
 					continue
 				}
 				lower := strings.ToLower(f.Name())
-				if !(strings.Contains(lower, "table") || strings.Contains(lower, "relation") || strings.Contains(lower, "view")) {
+				// the field names that say "this string is the name of a table": an alias, a table-valued function's name
+				// or a qualifier would be something else
+				if !map[string]bool{"table": true, "tablename": true, "tbl": true, "view": true, "viewname": true, "relation": true, "reftable": true}[lower] {
 					continue
 				}
 				key := named.Obj().Name() + "." + f.Name()
